@@ -1207,7 +1207,7 @@ OP_OBJECTS = {0: (1, 7, 8), 1: (1, 7, 8), 9: (1, 7, 8), 2: (1, 7), 3: (1, 4), 4:
 
 def gen_c10(tier, rng):
     cases = gen_sched(tier, rng, True)[:: (4 if tier == "quick" else 1)]
-    sizes = [1, 1025, 3 * 1024 + 5, 5 * 1024 + 7] if tier == "quick" else [0, 1, 1024, 1025, 2049, 3 * 1024 + 5, 5 * 1024 + 7, 8 * 1024 + 1]
+    sizes = [0, 1, 1025, 3 * 1024 + 5, 5 * 1024 + 7] if tier == "quick" else [0, 1, 1024, 1025, 2049, 3 * 1024 + 5, 5 * 1024 + 7, 8 * 1024 + 1]
     for size in sizes:
         n = nchunks(size)
         for bs in (0, 1, 2):
